@@ -62,6 +62,8 @@ class Source:
         except SyntaxError as e:
             raise AnalysisError(f"cannot parse {rel}:{e.lineno}: {e.msg}")
         localnames.orient_comparisons(self.tree)
+        from . import exprnorm as _en
+        _en.register_enums(self.tree)
         self._funcs = None
         self._classes = None
 
